@@ -69,6 +69,32 @@ impl<const X: usize> KalmanState<X> {
     }
 }
 
+/// Verification-only raw access to the (otherwise private) filter state
+#[cfg(similari_verif)]
+impl<const X: usize> KalmanState<X> {
+    /// Returns (mean, covariance in row-major order)
+    pub fn verif_raw(&self) -> (Vec<f32>, Vec<f32>) {
+        let mean = self.mean.iter().copied().collect();
+        let mut cov = Vec::with_capacity(X * X);
+        for i in 0..X {
+            for j in 0..X {
+                cov.push(self.covariance[(i, j)]);
+            }
+        }
+        (mean, cov)
+    }
+
+    /// Builds a state from a mean and a row-major covariance
+    pub fn verif_from_raw(mean: &[f32], cov: &[f32]) -> Self {
+        assert_eq!(mean.len(), X);
+        assert_eq!(cov.len(), X * X);
+        Self {
+            mean: SVector::from_iterator(mean.iter().copied()),
+            covariance: SMatrix::from_fn(|i, j| cov[i * X + j]),
+        }
+    }
+}
+
 impl<const X: usize> TryFrom<KalmanState<X>> for Universal2DBox {
     type Error = Errors;
 
